@@ -383,14 +383,21 @@ func (st *State) errIsTerm(a, b Val) string {
 	e := st.e
 	e.assumeUsed("errors.Is/As follow the unwrap chain; SentinelError has no Is/Unwrap; errExpired.Is(t) == errors.Is(t, ErrExpired)")
 	same := and(eq(at, bt), eq(av, bv))
+	exp := st.sentinel("ErrExpired")
+	expCase := or(same, and(eq(bt, exp.C[0]), eq(bv, exp.C[1])))
 	if at == e.sentinelTag() {
 		return same
 	}
 	if at == e.namedTag("errExpired") || at == e.expiredOfTag() {
-		exp := st.sentinel("ErrExpired")
-		return or(same, and(eq(bt, exp.C[0]), eq(bv, exp.C[1])))
+		return expCase
 	}
-	return fmt.Sprintf("(errIs %s %s %s %s)", at, av, bt, bv)
+	if isConcreteNum(at) {
+		return fmt.Sprintf("(errIs %s %s %s %s)", at, av, bt, bv)
+	}
+	// symbolic dynamic type: case split on the types whose Is behaviour is known
+	return ite(eq(at, e.sentinelTag()), same,
+		ite(or(eq(at, e.namedTag("errExpired")), eq(at, e.expiredOfTag())), expCase,
+			fmt.Sprintf("(errIs %s %s %s %s)", at, av, bt, bv)))
 }
 
 func (e *Engine) expiredOfTag() string {
@@ -398,7 +405,8 @@ func (e *Engine) expiredOfTag() string {
 	if obj == nil {
 		return "-1"
 	}
-	return e.typeTag(obj.Type())
+	// the generic bodies mention it as errExpiredOf[V]; one tag stands for every instantiation
+	return e.tagByName("errExpiredOf[V]", obj.Type())
 }
 
 // asExpiredOK: errors.As(err, &ErrWithExpiredItem[Of]) succeeds.
@@ -414,7 +422,10 @@ func (st *State) asExpiredOK(err Val) string {
 	if t == e.sentinelTag() {
 		return "false"
 	}
-	return fmt.Sprintf("(asExp %s %s)", err.C[0], err.C[1])
+	if isConcreteNum(t) {
+		return fmt.Sprintf("(asExp %s %s)", err.C[0], err.C[1])
+	}
+	return ite(or(eq(t, e.namedTag("errExpired")), eq(t, e.expiredOfTag())), "true", fmt.Sprintf("(asExp %s %s)", err.C[0], err.C[1]))
 }
 
 func modelErrorsAs(st *State, fr *Frame, fn *ssa.Function, a []Val, pos token.Pos) (*Val, bool) {
@@ -524,11 +535,9 @@ func (sc *SpecCtx) expiredValue(err Val) Val {
 	e := sc.st.e
 	anyT := types.NewInterfaceType(nil, nil)
 	if err.C[0] == e.namedTag("errExpired") {
-		// errExpired{entry}: boxed struct with one pointer field
-		t := e.P.TPkg.Scope().Lookup("errExpired").Type()
-		box := sc.load(&Ptr{Kind: PObj, Root: err.C[1], RootT: t, T: t})
+		// errExpired{entry}: a one-leaf struct, so the interface payload is the entry pointer itself
 		ent := e.P.TPkg.Scope().Lookup("TraitEntry").Type()
-		return sc.load(&Ptr{Kind: PObj, Root: box.C[0], RootT: ent, Path: ".V", T: anyT})
+		return sc.load(&Ptr{Kind: PObj, Root: err.C[1], RootT: ent, Path: ".V", T: anyT})
 	}
 	return Val{T: anyT, C: []string{fmt.Sprintf("(expval_tag %s %s)", err.C[0], err.C[1]), fmt.Sprintf("(expval_val %s %s)", err.C[0], err.C[1])}}
 }
@@ -536,10 +545,8 @@ func (sc *SpecCtx) expiredValue(err Val) Val {
 func (sc *SpecCtx) expiredAt(err Val) Val {
 	e := sc.st.e
 	if err.C[0] == e.namedTag("errExpired") {
-		t := e.P.TPkg.Scope().Lookup("errExpired").Type()
-		box := sc.load(&Ptr{Kind: PObj, Root: err.C[1], RootT: t, T: t})
 		ent := e.P.TPkg.Scope().Lookup("TraitEntry").Type()
-		return sc.load(&Ptr{Kind: PObj, Root: box.C[0], RootT: ent, Path: ".E", T: tInt64})
+		return sc.load(&Ptr{Kind: PObj, Root: err.C[1], RootT: ent, Path: ".E", T: tInt64})
 	}
 	return Val{T: tInt64, C: []string{fmt.Sprintf("(expat %s %s)", err.C[0], err.C[1])}}
 }
